@@ -36,6 +36,9 @@ pub fn families(property: &str, tier: &str) -> Vec<Family> {
         "C10" => vec![Family { name: "recip", weight: 1, gen: crate::parties::generate_recip }],
         "C11" => vec![Family { name: "sskr", weight: 1, gen: crate::parties::generate_sskr }],
         "C12" => vec![Family { name: "proof", weight: 1, gen: crate::parties::generate_proof }],
+        "C17" => vec![Family { name: "salt", weight: 1, gen: crate::ext::generate_salt }],
+        "C18" => vec![Family { name: "expr", weight: 1, gen: crate::ext::generate_expr }],
+        "C19" => vec![Family { name: "attach", weight: 1, gen: crate::ext::generate_attach }],
         "C16" => vec![Family { name: "panics", weight: 1, gen: crate::panics::generate }],
         _ => vec![],
     }
@@ -47,6 +50,9 @@ pub fn dispatch(scn: &Scenario, ctx: &mut Ctx) -> Result<(), String> {
         "wire" => crate::wire::run(scn, ctx),
         "tamper" => crate::tamper::run(scn, ctx),
         "panics" => crate::panics::run(scn, ctx),
+        "salt" => crate::ext::run_salt(scn, ctx),
+        "expr" => crate::ext::run_expr(scn, ctx),
+        "attach" => crate::ext::run_attach(scn, ctx),
         "sign" => crate::parties::run_sign(scn, ctx),
         "recip" => crate::parties::run_recip(scn, ctx),
         "sskr" => crate::parties::run_sskr(scn, ctx),
@@ -74,6 +80,9 @@ fn default_runs(property: &str, tier: &str) -> u64 {
         "C09" => 15_000,
         "C10" => 20_000,
         "C11" => 15_000,
+        "C17" => 150_000,
+        "C18" => 15_000,
+        "C19" => 6_000,
         _ => 40_000,
     };
     if tier == "thorough" {
